@@ -316,7 +316,7 @@ func checkC07(c *Ctx) error {
 	// (c2) the same with a fifth kind, a decorator whose argument requests a tag (5^9 graphs: sampled)
 	{
 		r := rand.New(rand.NewSource(c.Seed * 5))
-		n5 := c.Pick(2500, 60000)
+		n5 := c.Pick(2500, 30000)
 		for k := 0; k < n5; k++ {
 			var cell [9]int
 			for x := range cell {
